@@ -477,8 +477,13 @@ struct Ctx {
     }
     __attribute__((noinline, cold)) void sample(BlockDesc const& b, i128 x, i128 y, std::size_t nx) const
     {
-        vf::sample(t.label.c_str(), "%s %s -> %s  [%s block: %zu x %u argument tuples]", t.op.c_str(), args(x, y).c_str(),
-            show_res(t.rk, t.ref(x, y)).c_str(), b.cls, t.unary ? std::size_t(1) : nx, b.yhi - b.ylo);
+        if (t.unary) {
+            vf::sample(t.label.c_str(), "%s %s -> %s  [%s block of %u values]", t.op.c_str(), args(x, y).c_str(), show_res(t.rk, t.ref(x, y)).c_str(),
+                b.cls, b.yhi - b.ylo);
+        } else {
+            vf::sample(t.label.c_str(), "%s %s -> %s  [%s block: %zu x %u argument tuples]", t.op.c_str(), args(x, y).c_str(),
+                show_res(t.rk, t.ref(x, y)).c_str(), b.cls, nx, b.yhi - b.ylo);
+        }
     }
     inline void eval(i128 x, i128 y)
     {
